@@ -23,8 +23,22 @@ class CycleDriver:
         self.bool_outputs = set(bool_outputs)
         self.bool_inputs = set(bool_inputs)
         self.sim = Simulator(dut)
-        for dom, period in (clocks or {domain: 1e-6}).items():
-            self.sim.add_clock(period, domain=dom)
+        clocks = clocks or {domain: 1e-6}
+        try:
+            for dom, period in clocks.items():
+                self.sim.add_clock(period, domain=dom)
+        except NameError:
+            # this configuration of the DUT has no register in the domain (purely combinational): give every
+            # domain a free-running dummy register so that time can advance; the DUT itself is unchanged
+            from amaranth import Module, Signal
+            top = Module()
+            top.submodules.dut = dut
+            for dom in clocks:
+                tick = Signal(name="verif_tick_" + dom)
+                top.d[dom] += tick.eq(~tick)
+            self.sim = Simulator(top)
+            for dom, period in clocks.items():
+                self.sim.add_clock(period, domain=dom)
         self._stim = None
         self._rec = None
         self._first = True
